@@ -181,10 +181,20 @@ def record_trace(job):
             rd = bnp.open(path, lazy=job["lazy"], **kw)
             calls = _tap_read_chunk(rd)
             try:
-                for c in rd.read_chunks(min_chunk_size=K):
+                if job.get("then_read"):
+                    # one chunk, then the rest of the file in one read()
+                    c = rd.read_chunk(min_chunk_size=K)
                     res["chunks"].append(formats.project_table(c))
+                    rest = rd.read()
+                    if len(rest):
+                        res["chunks"].append(formats.project_table(rest))
+                else:
+                    for c in rd.read_chunks(min_chunk_size=K):
+                        res["chunks"].append(formats.project_table(c))
             finally:
                 res["lines"] = [c[2] for c in calls if c[0] > 0][:len(res["chunks"])]
+                while len(res["lines"]) < len(res["chunks"]):        # read() is not a tapped read_chunk call: no line counter for it
+                    res["lines"].append(res["lines"][-1] if res["lines"] else 0)
                 rd.close()
         o = outcome(run)
         if o[0] == "err":
@@ -237,7 +247,7 @@ def validate_traces(ctx, recs, tag="Trace_C01"):
         j = r["meta"]["job"]
         bad.append({"what": "recorded execution rejected by L0: " + clause,
                     "tags": {"format": j["fmt"], "src": j["src"], "lazy": j["lazy"], "crlf": j["crlf"],
-                             "finalnl": j["finalnl"], "clause": clause.split(":")[0], "binding": "B"},
+                             "finalnl": j["finalnl"], "clause": clause.split(":")[0], "binding": "B", "mode": "chunk-then-read" if j.get("then_read") else "chunks"},
                     "group": {"format": j["fmt"], "src": j["src"], "clause": clause},
                     "trace_job": j, "expected": "all %d entries in order" % r["trace"]["n"],
                     "observed": {"events": r["trace"]["events"], "msg": r["meta"]["msg"]}})
@@ -282,6 +292,10 @@ def _jobs(ctx, quick):
                             tid += 1
                             jobs.append(dict(tid=tid, fmt=fmt, specs=specs, crlf=crlf, finalnl=finalnl, K=K,
                                              src=src, lazy=bool(K % 2), dir=d))
+                            if n >= 2 and K < len(data):
+                                tid += 1
+                                jobs.append(dict(tid=tid, fmt=fmt, specs=specs, crlf=crlf, finalnl=finalnl, K=K,
+                                                 src=src, lazy=bool(K % 2), dir=d, then_read=True))
     # larger files, sampled K
     nbig = 150 if quick else 1500
     allf = list(formats.FORMATS)
